@@ -68,6 +68,8 @@ def configs(tier):
         add(group='explicit', d=2, q=1, T=3, mode=mode, imputer='joint', storage='batch', _cost=50)
         add(group='explicit', d=1, q=2, T=3, mode=mode, imputer='product', storage='geometric', cap=2, _cost=50)
         add(group='explicit', d=2, q=1, T=3, mode=mode, imputer='joint', storage='batch', ignored=1, _cost=50)
+        add(group='explicit', d=1, q=1, T=3, mode=mode, imputer='joint', storage='batch', prefill=2, _cost=50)
+        add(group='explicit', d=2, q=1, T=3, mode=mode, imputer='product', storage='interval', cap=3, prefill=1, _cost=50)
         add(group='explicit', d=2, q=2, T=6 if tier == 'quick' else 9, mode=mode, imputer='default', storage='interval', cap=2,
             alpha_value='1/4', _cost=50)
     return cfgs
@@ -166,7 +168,7 @@ def _step(env, cfg):
 
 
 def _explicit(env, cfg):
-    cfg = dict(cfg, state='fresh', m=0)
+    cfg = dict(cfg, state='fresh', m=cfg.get('prefill', 0))     # prefill: the user-supplied storage already holds rows
     b = build_incremental(env, IncrementalPFI, cfg)
     ex, names, q = b['ex'], b['names'], b['q']
     alpha = b['alpha']
@@ -180,7 +182,8 @@ def _explicit(env, cfg):
         if t == 0:
             env.claim('first_observation_only_seeds',
                       And(len(b['model'].calls) == 0, len(b['loss'].calls) == 0, len(b['imputer'].calls) == 0,
-                          len(ex._storage) == 1, eq(ex._importance_trackers.N, 0), ex.importance_values == {}))
+                          len(ex._storage) == 1 + cfg.get('prefill', 0), eq(ex._importance_trackers.N, 0),
+                          ex.importance_values == {}))
             continue
         contrib = _contributions(env, b, x, y, q, b['imputer'].calls[n_calls:], b['model'].calls[n_model:], rows_now,
                                  tag=f"_t{t + 1}")
